@@ -271,7 +271,8 @@ type Net struct {
 	stats     map[string]int
 	canon     map[uint64]*commitRec
 	maxCanon  uint64
-	frozen    int32 // router drops everything when set
+	frozen    int32                                                // router drops everything when set
+	HoldSend  func(from *RNode, m *interfaces.ConsensusRawMessage) // optional: a slow transport (set before the nodes start)
 	inflight  sync.WaitGroup
 }
 
@@ -314,6 +315,11 @@ func (net *Net) newNode(id string) *RNode {
 	n.Store = &spi.RecStorage{Storage: storage.NewInMemoryStorage(), Node: id, Log: net.Log}
 	n.Lg = &rtLogger{node: id, net: net, pings: map[uint64]chan struct{}{}, delays: net.opts.LogDelays}
 	comm := &spi.Comm{Node: id, Log: net.Log, OnSend: func(to []string, m *interfaces.ConsensusRawMessage) { net.route(n, to, m) }}
+	comm.Before = func(ctx context.Context, m *interfaces.ConsensusRawMessage) {
+		if hold := net.HoldSend; hold != nil {
+			hold(n, m)
+		}
+	}
 	cfg := &interfaces.Config{
 		InstanceId:    spi.InstanceId,
 		Communication: comm,
